@@ -9,7 +9,7 @@ EXPLANATION = LEVEL_TEXT
 TRUSTED = ["calloc returns NULL or a fresh zeroed block aligned to 8; free releases it (assumed allocator contract)",
            "set/rem(current(GC), p) register/delete p with the thread's collector (contracts discharged under C17/C06)"]
 
-TYPES = [("Int", "Int"), ("String", "String"), ("Ref", "Ref"), ("Float", "Float"), ("Range", "Range")]
+TYPES = [("Int", "Int"), ("String", "String"), ("Ref", "Ref"), ("Float", "Float")]   # types whose destructor deletes nothing else (Range_Del deletes its value through del)
 FUNCS = ["header_init", "header", "alloc_by", "alloc", "alloc_raw", "alloc_root", "dealloc", "dealloc_raw", "del_by", "del", "del_raw", "del_root",
          "destruct", "macro alloc_stack", "type_of", "Type_Of", "size"]
 
